@@ -311,15 +311,22 @@ def geometry(rng, p, kind):
         if zu - 5 <= lo + 10:
             return None
         za, zb = rng.uniform(lo + 5, zu - 5), rng.uniform(zu + 5, top)
-    elif kind == "vertical":
+    elif kind in ("vertical", "exact-vertical"):
         za, zb = rng.uniform(lo + 5, top), rng.uniform(lo + 5, top)
+        if kind == "exact-vertical" and rng.random() < 0.5 and zu - 5 > lo + 10:
+            # make the three depth classes equally likely: shallow, deep, across z_uniform
+            cls3 = rng.randrange(3)
+            za = rng.uniform(lo + 5, zu - 5) if cls3 >= 1 else rng.uniform(max(zu, lo) + 1, top)
+            zb = rng.uniform(lo + 5, zu - 5) if cls3 == 1 else rng.uniform(max(zu, lo) + 1, top)
     else:  # shadow: both endpoints in the firn, where the shadow zone is
         za, zb = rng.uniform(max(zu, lo) + 5, top), rng.uniform(max(zu, lo) + 5, top)
     if rng.random() < 0.5:
         za, zb = zb, za
     if abs(za - zb) < 12.0:
         return None
-    if kind == "vertical":
+    if kind == "exact-vertical":
+        rho = 0.0          # receiver exactly above / below the source: launch angles are exactly 0 and pi
+    elif kind == "vertical":
         rho = rng.choice([rng.uniform(0.01, 3), rng.uniform(3, 40)])
     elif kind == "shadow":
         rho = None
@@ -417,6 +424,18 @@ def judge(ctx, tracer, dz, icep, g, paths, tr, stats):
         out.append(("second-direct", "second solution is flagged direct: " + tag))
     if len(paths) > 2:
         out.append(("count", "%d solutions returned: %s" % (len(paths), tag)))
+    try:
+        expected = [bool(x) for x in tr.expected_solutions]
+    except Exception:  # noqa
+        expected = None
+    if expected is not None and sum(expected) != len(paths):
+        out.append(("solution-count", "the tracer expects solutions %s (exists=%s) but returns %d path(s) with launch angles %s: %s" % (
+            expected, any(expected), len(paths), [float(p.theta0) for p in paths], tag)))
+    if rho == 0.0 and abs(g["z_from"] - g["z_to"]) >= max(12.0, 2 * dz):
+        # exactly vertical pair inside the ice: the straight vertical ray and the ray reflected at the top both exist
+        if not (len(paths) == 2 and paths[0].direct and not paths[1].direct):
+            out.append(("vertical-pair", "source and receiver on one vertical: expected the direct and the surface-reflected solution, got %s: %s" % (
+                [(bool(p.direct), float(p.theta0)) for p in paths], tag)))
     for i, p in enumerate(paths):
         e = np.asarray(p.emitted_direction, dtype=float)
         r = np.asarray(p.received_direction, dtype=float)
@@ -486,6 +505,8 @@ def judge(ctx, tracer, dz, icep, g, paths, tr, stats):
                     got_any = True
                     for j in idx:
                         tol[j] += 1.5 * abs(v2[j] - o["vals"][j])
+        if not got_any and beta <= 1e-12:
+            got_any = True       # exactly vertical ray: nothing to perturb, every quantity is smooth at beta = 0
         if not got_any:
             stats["ill_conditioned_skipped"] = stats.get("ill_conditioned_skipped", 0) + 1
             continue
@@ -530,7 +551,7 @@ def judge(ctx, tracer, dz, icep, g, paths, tr, stats):
 
 
 # ---------------------------------------------------------------------------- probes + end-to-end correspondence
-KINDS = ["shallow", "deep", "cross", "vertical", "shadow"]
+KINDS = ["shallow", "deep", "cross", "vertical", "shadow", "exact-vertical"]
 
 
 def probes_and_e2e(ctx, do_model=True, escalate=1):
@@ -547,7 +568,7 @@ def probes_and_e2e(ctx, do_model=True, escalate=1):
         while done < count and attempts < 5 * count:
             attempts += 1
             icep = pick_ice(rng)
-            kind = KINDS[(done + attempts) % len(KINDS)] if tracer != "BasicRayTracer" else rng.choice(["shallow", "cross", "shadow", "shallow"])
+            kind = KINDS[(done + attempts) % len(KINDS)] if tracer != "BasicRayTracer" else rng.choice(["shallow", "cross", "shadow", "shallow", "exact-vertical"])
             g = geometry(rng, icep, kind)
             if g is None:
                 continue
@@ -580,7 +601,6 @@ def probes_and_e2e(ctx, do_model=True, escalate=1):
                 continue
             if not paths:
                 stats["no_solution"] += 1
-                continue
             stats["solutions"] += len(paths)
             for key, what in judge(ctx, tracer, dz, icep, g, paths, tr, stats):
                 full = key if key in (K_BETA_TOL, K_LINK, K_LOG1) else "%s:%s:%s:%r:%r:%r" % (key, tracer, icep["cls"], g["z_from"], g["z_to"], g["rho"])
@@ -687,6 +707,22 @@ def fixed_findings(ctx):
             full = key if key in (K_BETA_TOL, K_LINK, K_LOG1) else "%s:%s:%s:%r:%r:%r" % (key, tracer, ip["cls"], g["z_from"], g["z_to"], g["rho"])
             ctx.fail(full, what, rec)
     ice20 = dict(icep, hi=-20.0, above=None)
+    # exactly vertical pairs (launch angles exactly 0 and pi): both solutions exist and are exact
+    for tracer, dz, ip, zf, zt in (("SpecializedRayTracer", 1.0, icep, -300.0, -100.0), ("SpecializedRayTracer", 1.0, icep, -100.0, -2000.0),
+                                   ("SpecializedRayTracer", 1.0, green, -2000.0, -1500.0), ("SpecializedRayTracer", 1.0, ice20, -900.0, -150.0),
+                                   ("BasicRayTracer", 1.0, icep, -300.0, -100.0), ("BasicRayTracer", 5.0, green, -120.0, -640.0),
+                                   ("BasicRayTracer", 0.1, ice20, -250.0, -60.0)):
+        g = {"kind": "exact-vertical", "z_from": zf, "z_to": zt, "rho": 0.0, "phi": 0.0, "x0": 5.0, "y0": 7.0}
+        tr = make_tracer(tracer, g, ip, dz)
+        paths, err = solve(tr)
+        rec = {"kind": "geometry", "tracer": tracer, "dz": dz, "ice": ip, "g": g}
+        ctx.case(key=("fixed-vertical", tracer, dz, zf, zt))
+        if paths is None:
+            ctx.fail("tracer-raises:%s:%s:%r:%r:%r" % (tracer, ip["cls"], zf, zt, 0.0), "%s(dz=%s).solutions raises %s for a vertical pair %r -> %r" % (tracer, dz, err, zf, zt), rec)
+            continue
+        for key, what in judge(ctx, tracer, dz, ip, g, paths, tr, stats):
+            full = key if key in (K_BETA_TOL, K_LINK, K_LOG1) else "%s:%s:%s:%r:%r:%r" % (key, tracer, ip["cls"], zf, zt, 0.0)
+            ctx.fail(full, what, rec)
     for rho in (550.0, 600.0, 650.0, 700.0):
         g = {"kind": "shallow", "z_from": -300.0, "z_to": -150.0, "rho": rho, "phi": 0.0, "x0": 0.0, "y0": 0.0}
         tr = make_tracer("SpecializedRayTracer", g, ice20, 1.0)
